@@ -35,7 +35,23 @@ def seeded_table():
               summ, caught, sig.replace('|', '/'), note))
 
 
+def capture(fn):
+    import io, contextlib
+    b = io.StringIO()
+    with contextlib.redirect_stdout(b): fn()
+    return b.getvalue()
+
+
+def update_design():
+    import re
+    p = os.path.join(ROOT, 'DESIGN.md'); s = open(p).read()
+    s = re.sub(r'<!-- COV-TABLE -->.*?<!-- /COV-TABLE -->', lambda m: '<!-- COV-TABLE -->\n' + capture(cov_table) + '<!-- /COV-TABLE -->', s, flags=re.S)
+    s = re.sub(r'<!-- SEEDED-TABLE -->.*?<!-- /SEEDED-TABLE -->', lambda m: '<!-- SEEDED-TABLE -->\n' + capture(seeded_table) + '<!-- /SEEDED-TABLE -->', s, flags=re.S)
+    open(p, 'w').write(s)
+
+
 if __name__ == '__main__':
     which = sys.argv[1] if len(sys.argv) > 1 else 'both'
+    if which == 'update': update_design(); sys.exit(0)
     if which in ('cov', 'both'): cov_table(); print()
     if which in ('seeded', 'both'): seeded_table()
